@@ -332,3 +332,111 @@ Theorem C18_cache_before_check_refuted :
     fst (mrun false f Unloaded ops) = map (fresh_answer f) ops.
 Proof. exact cache_before_check_refuted. Qed.
 Print Assumptions C18_cache_before_check_refuted.
+
+(* ---- the persistent-query match-result files (<segkey>/pqmr/<pqid>.pqmr; pkg/segment/pqmr/pqmatchresults.go) ----
+   A file WITHOUT checksum: records blkNum u16 LE | size u16 LE | bitset length u64 BE | words u64 BE, one per block.
+   The reader and the searcher's rule are the definitions of SigM.PqmrProto (ReadPqmr with its reused buffer,
+   bitset.UnmarshalBinary; blocks the file reports are answered from the stored bits, the others are raw-searched, a
+   refused file sends the whole segment to the raw search), shared with C07; pq_answer file nblocks truth b = the
+   records of block b the persistent query returns when the file holds [file] (truth b = the records that match).
+   Tie to the code: harness stream pq (every truncation length / replaced bytes of the real files of four persistent
+   queries, the query asked twice, every answer predicted by pq_answer inside Coq; the undamaged files satisfy
+   wf_blocks and "stored bits = truth").
+   FULL STATEMENT for truncation: cut at ANY byte, the answer of EVERY block is the original one. *)
+From SigM Require Import PqmrProto PqmrDamage.
+From SigP Require Import PqmrDamageProofs.
+Theorem C18_pqmr_truncation_answer_original : forall (bl : list (N * bitset)) (truth : N -> list N) (k : nat) (nblocks : N),
+  wf_blocks bl = true -> (forall b bs, In (b, bs) bl -> set_bits bs = truth b) ->
+  forall b, (b < nblocks)%N -> pq_answer (firstn k (file_of bl)) nblocks truth b = truth b.
+Proof. exact pqd_truncation_answer_original. Qed.
+Print Assumptions C18_pqmr_truncation_answer_original.
+
+(* what carries it is the break on a short ReadAt of the bitset: a reader that keeps the bytes it got and goes on
+   (a cut ONE byte inside the bitset of the last record) decodes the reused buffer and serves the block with the
+   previous block's bits *)
+Theorem C18_pqmr_short_read_tolerant_reader_refuted :
+  let bl := [(0, (1, [1])); (1, (2, [2]))]%N in
+  let truth := fun b : N => if N.eqb b 0 then [0%N] else [1%N] in
+  wf_blocks bl = true /\ (forall b bs, In (b, bs) bl -> set_bits bs = truth b) /\
+  pq_answer (firstn 25 (file_of bl)) 2%N truth 1%N = truth 1%N /\
+  pq_answer_tolerant (firstn 25 (file_of bl)) 2%N truth 1%N = [0%N] /\ truth 1%N = [1%N].
+Proof. exact pqd_tolerant_reader_refuted. Qed.
+Print Assumptions C18_pqmr_short_read_tolerant_reader_refuted.
+
+(* One replaced byte.  FULL STATEMENT "the answer is the original one or an error" is REFUTED for this file (no
+   checksum): see the two _refuted theorems below (known/C18.json: pqmr_*_damage_served_as_match_bits).  What IS
+   guaranteed, for a byte in the WORDS of the bitset of one record (any value, any record, any file the writer wrote):
+   the file still parses into the same records, only that word of that record differs ... *)
+Theorem C18_pqmr_word_damage_parse : forall pre b len ws post (i : nat) (v : N),
+  wf_blocks (pre ++ (b, (len, ws)) :: post) = true -> (i < 8 * length ws)%nat -> (v < 256)%N ->
+  read_pqmr (set_nth (rec_off pre + 12 + i) v (file_of (pre ++ (b, (len, ws)) :: post)))
+  = Some (pre ++ (b, (len, words_set i v ws)) :: post).
+Proof. exact pqd_word_damage_parse. Qed.
+Print Assumptions C18_pqmr_word_damage_parse.
+
+(* ... so every OTHER block of the segment is answered as before the damage ... *)
+Theorem C18_pqmr_word_damage_other_blocks_original : forall pre b len ws post (i : nat) (v : N) truth nblocks,
+  wf_blocks (pre ++ (b, (len, ws)) :: post) = true -> (i < 8 * length ws)%nat -> (v < 256)%N ->
+  (forall b' bs, In (b', bs) (pre ++ (b, (len, ws)) :: post) -> set_bits bs = truth b') ->
+  forall b', (b' < nblocks)%N -> b' <> b ->
+  pq_answer (set_nth (rec_off pre + 12 + i) v (file_of (pre ++ (b, (len, ws)) :: post))) nblocks truth b' = truth b'.
+Proof. exact pqd_word_damage_other_blocks_original. Qed.
+Print Assumptions C18_pqmr_word_damage_other_blocks_original.
+
+(* ... and the damaged block is answered from the damaged word, without any error *)
+Theorem C18_pqmr_word_damage_block_served : forall pre b len ws post (i : nat) (v : N) truth nblocks,
+  wf_blocks (pre ++ (b, (len, ws)) :: post) = true -> (i < 8 * length ws)%nat -> (v < 256)%N ->
+  ~ In b (map fst post) ->
+  pq_answer (set_nth (rec_off pre + 12 + i) v (file_of (pre ++ (b, (len, ws)) :: post))) nblocks truth b
+  = set_bits (len, words_set i v ws).
+Proof. exact pqd_word_damage_block_served. Qed.
+Print Assumptions C18_pqmr_word_damage_block_served.
+
+Theorem C18_pqmr_bitset_byte_damage_served_refuted :
+  let bl := [(0, (6, [36])); (1, (6, [63]))]%N in
+  let truth := fun b : N => if N.eqb b 0 then [2; 5]%N else [0; 1; 2; 3; 4; 5]%N in
+  wf_blocks bl = true /\ (forall b bs, In (b, bs) bl -> set_bits bs = truth b) /\
+  pq_answer (set_nth 19 32%N (file_of bl)) 2%N truth 0%N = [5%N] /\ truth 0%N = [2; 5]%N.
+Proof. exact pqd_bitset_byte_damage_served_refuted. Qed.
+Print Assumptions C18_pqmr_bitset_byte_damage_served_refuted.
+
+(* a byte of a record's BLOCK NUMBER: the records keep their bits, one record changes its number (any value) ... *)
+Theorem C18_pqmr_block_number_damage_parse : forall pre b bs post (i : nat) (v : N),
+  wf_blocks (pre ++ (b, bs) :: post) = true -> (i < 2)%nat -> (v < 256)%N ->
+  read_pqmr (set_nth (rec_off pre + i) v (file_of (pre ++ (b, bs) :: post))) = Some (pre ++ (blk_set i v b, bs) :: post).
+Proof. exact pqd_blknum_damage_parse. Qed.
+Print Assumptions C18_pqmr_block_number_damage_parse.
+
+(* ... and the block it now names is answered with the bits of another block (the last record of a number wins);
+   the block that lost its record is raw-searched *)
+Theorem C18_pqmr_block_number_damage_served_refuted :
+  let bl := [(0, (6, [36])); (1, (6, [63]))]%N in
+  let truth := fun b : N => if N.eqb b 0 then [2; 5]%N else [0; 1; 2; 3; 4; 5]%N in
+  wf_blocks bl = true /\ (forall b bs, In (b, bs) bl -> set_bits bs = truth b) /\
+  pq_answer (set_nth 20 0%N (file_of bl)) 2%N truth 0%N = [0; 1; 2; 3; 4; 5]%N /\ truth 0%N = [2; 5]%N /\
+  pq_answer (set_nth 20 0%N (file_of bl)) 2%N truth 1%N = truth 1%N.
+Proof. exact pqd_blknum_damage_served_refuted. Qed.
+Print Assumptions C18_pqmr_block_number_damage_served_refuted.
+
+(* "never crash": bitset.ReadFrom allocates New(length) BEFORE it reads a word.  REFUTED for the code before fix
+   3b911d3 (known/C18.json: pqmr_bitset_length_oom, fixed): one replaced byte in the 8-byte length field of a 16-byte
+   record asked for 2^34 words (128 GiB; fatal "out of memory", the process died) ... *)
+Theorem C18_pqmr_length_alloc_unbounded_refuted :
+  let payload := be64 6 ++ be64 36 in
+  rec_alloc_words payload = 1%N /\ (17179869184 <= rec_alloc_words (set_nth 2 1%N payload))%N /\
+  length (set_nth 2 1%N payload) = 16%nat.
+Proof. exact pqd_length_alloc_unbounded_refuted. Qed.
+Print Assumptions C18_pqmr_length_alloc_unbounded_refuted.
+
+(* ... THE CODE NOW (fix 3b911d3: the check "the announced bits fit into the words of the record" in front of
+   UnmarshalBinary): for ANY record content the allocation is bounded by the record's size, and the guard never
+   refuses a record the writer wrote *)
+Theorem C18_pqmr_length_guard_bounds_alloc : forall payload : list N,
+  (rec_alloc_words_guarded payload <= N.of_nat (length payload) / 8)%N.
+Proof. exact pqd_len_guard_bounds_alloc. Qed.
+Print Assumptions C18_pqmr_length_guard_bounds_alloc.
+
+Theorem C18_pqmr_length_guard_accepts_written : forall bs : bitset,
+  wf_bitset bs = true -> len_fits (be64 (fst bs) ++ enc_words (snd bs)) = true.
+Proof. exact pqd_len_guard_accepts_written. Qed.
+Print Assumptions C18_pqmr_length_guard_accepts_written.
